@@ -802,11 +802,13 @@ pub fn c18_scenario(name: &str, n: usize) -> Result<String, String> {
             drop(t);
             Ok(format!("set dropped {}", len))
         }
-        "comb-intersection" | "comb-difference" | "comb-intersection-f32" | "comb-difference-f32" => {
+        "comb-intersection" | "comb-difference" | "comb-intersection-f32" | "comb-difference-f32" | "comb-corner-intersection" | "comb-corner-difference" | "comb-corner-intersection-f32" | "comb-corner-difference-f32" => {
             use crate::geom::Op;
             use crate::iface::{run_op, Pairing};
-            let (a, b) = crate::gen::comb(n);
+            let (a, b) = if parts[0].contains("corner") { crate::gen::comb_corner(n) } else { crate::gen::comb(n) };
             let op = if parts[0].contains("intersection") { Op::Intersection } else { Op::Difference };
+            // the difference stops early only when the small box is the subject
+            let (a, b) = if op == Op::Difference && parts[0].contains("corner") { (b, a) } else { (a, b) };
             let r = if parts[0].ends_with("f32") { run_op::<f32>(&a, &b, op, Pairing::MM) } else { run_op::<f64>(&a, &b, op, Pairing::MM) };
             match r {
                 Ok(mp) => Ok(format!("{} polygons", mp.len())),
@@ -835,4 +837,4 @@ pub const C18_SCENARIOS: [&str; 16] = [
     "set-drop:asc",
     "set-drop:desc",
 ];
-pub const C18_BOOLEAN_SCENARIOS: [&str; 4] = ["comb-intersection", "comb-difference", "comb-intersection-f32", "comb-difference-f32"];
+pub const C18_BOOLEAN_SCENARIOS: [&str; 8] = ["comb-intersection", "comb-difference", "comb-intersection-f32", "comb-difference-f32", "comb-corner-intersection", "comb-corner-difference", "comb-corner-intersection-f32", "comb-corner-difference-f32"];
